@@ -6,6 +6,7 @@ mod ps;
 mod ps_conc;
 mod rr;
 mod rr_conc;
+mod ws;
 
 use std::time::{Duration, Instant};
 use vkit::{Args, Json, Report, Rng};
@@ -274,6 +275,76 @@ fn ev_campaign(args: &Args) -> Report {
     rep
 }
 
+fn ws_campaign(args: &Args) -> Report {
+    let seed = args.u64("seed", 1);
+    let shard = args.u64("shard", 0);
+    let secs = args.u64("secs", 5);
+    let svc = args.str("svc", "local");
+    let deadline = Instant::now() + Duration::from_secs(secs);
+    let only = args.kv.get("only-hist").map(|s| s.parse::<u64>().unwrap());
+    let mut rep = Report::new();
+    dom::install_log_capture();
+    let d = dom::Domain::new(&format!("c20{}", shard));
+    let mut i = 0u64;
+    let mut tag = shard << 32;
+    while Instant::now() < deadline {
+        let hi = only.unwrap_or(i);
+        let mut rng = Rng::derive(&[seed, shard, hi, 2020]);
+        let nl = rng.range(1, 4) as usize;
+        let ns = rng.range(1, 2).min(nl as u64) as usize;
+        let len = rng.range(4, 40) as usize;
+        let script: Vec<(u64, u64, u64)> = (0..len).map(|_| (rng.below(10), rng.next() >> 8, rng.next() >> 8)).collect();
+        let mut exec = |sc: &[(u64, u64, u64)]| {
+            tag += 1;
+            if svc == "ipc" { ws::run::<iceoryx2::service::ipc::Service>(&d.config, sc, nl, ns, tag) } else { ws::run::<iceoryx2::service::local::Service>(&d.config, sc, nl, ns, tag) }
+        };
+        let mut o = exec(&script);
+        rep.execs += 1;
+        for (k, v) in &o.events {
+            rep.count(k, *v);
+        }
+        if o.events.get("process_with_ready_attachments").is_some() && o.events.get("detach").is_some() {
+            rep.nontrivial += 1;
+            rep.distinct(vkit::fnv_str(&format!("{}{}{:?}", nl, ns, o.trace)));
+        }
+        if i < 1 {
+            rep.sample(Json::obj().set("service", svc.as_str()).set("listeners", nl).set("services", ns).set("history", o.trace.join(" ")));
+        }
+        if let Some((rule, _)) = o.mismatch.clone() {
+            let mut cur = script.clone();
+            let mut chunk = (cur.len() / 2).max(1);
+            loop {
+                let mut k = 0;
+                while k < cur.len() {
+                    let mut cand = cur.clone();
+                    let end = (k + chunk).min(cand.len());
+                    cand.drain(k..end);
+                    let oc = exec(&cand);
+                    if oc.mismatch.as_ref().map(|m| m.0 == rule).unwrap_or(false) {
+                        cur = cand;
+                        o = oc;
+                    } else {
+                        k += chunk;
+                    }
+                }
+                if chunk == 1 {
+                    break;
+                }
+                chunk /= 2;
+            }
+            let (rule, msg) = o.mismatch.unwrap();
+            rep.violation(&rule, format!("C20:{}:{}", svc, rule), msg, Json::obj().set("replay_args", format!("c20 --svc {} --seed {} --shard {} --only-hist {}", svc, seed, shard, hi)));
+        }
+        let _ = dom::drain_bad_logs(&[]);
+        i += 1;
+        if only.is_some() {
+            break;
+        }
+    }
+    rep.count("histories", i);
+    rep
+}
+
 fn ps_concurrent(args: &Args, prop: &str) -> Report {
     use vkit::sched::Mode;
     let seed = args.u64("seed", 1);
@@ -334,6 +405,7 @@ fn main() {
         "c15g" => grow_campaign(&args),
         "c11c" => rr_concurrent(&args),
         "c05" => ev_campaign(&args),
+        "c20" => ws_campaign(&args),
         "c08r" => rr_campaign(&args, "C08"),
         "warmup" => return,
         other => {
